@@ -115,13 +115,13 @@ prop("C10", quick={"runs": 16000}, thorough={"runs": 100000000, "budget_s": 600}
      rules=["C10.R1 ExpireAt within [t+T-|T|J/2, t+T+|T|J/2] (exactly t+T without jitter)", "C10.R2 never expires with UnlimitedTTL and no context TTL",
             "C10.R3 fresh 1ns before, ErrExpired 1ns after the reported instant", "C10.R4 ErrExpired.ExpiredAt == Walk's ExpireAt"],
      probes=["never_expiring_write", "jitter_disabled_write", "jittered_write", "flip_probed", "born_expired"])
-prop("C11", quick={"runs": 8000}, thorough={"runs": 100000000, "budget_s": 600},
+prop("C11", quick={"runs": 30000}, thorough={"runs": 100000000, "budget_s": 600},
      rule=BE_RULE + "Root-driven writes (never-expiring, fresh, recently expired, long expired) and clock jumps; the real janitor goroutine runs as a "
      "scheduled task whenever the simulated clock crosses DeleteExpiredJobInterval; after every jump that contained a cycle the surviving key set is "
      "compared with the reference map. Non-trivial: at least one cleanup cycle ran; distinct = distinct (scenario, schedule).",
      rules=["C11.R1 wrongly-deleted (never-expiring / fresh / recently expired entry removed)", "C11.R2 not-deleted (long-expired entry kept although the scan is documented to run)"],
      probes=["janitor_met_never_expiring_entry", "janitor_met_fresh_entry", "janitor_met_recently_expired_entry", "janitor_deleted_long_expired_entry",
-             "unlimited_cache_with_explicit_ttl_cycle"])
+             "unlimited_cache_with_explicit_ttl_cycle", "entry_without_expiry_restored", "fresh_write_during_cleanup_cycle"])
 prop("C12", quick={"runs": 6000}, thorough={"runs": 100000000, "budget_s": 600},
      rule=BE_RULE + "Root-driven fill of 1-400 entries around CountSoftLimit, access histories (reads at distinct simulated instants, rewrites), "
      "EvictionNeeded scripts, EvictFraction in (0,1], three strategies; the real janitor/eviction runs as a scheduled task. Non-trivial: at least one cycle.",
